@@ -28,7 +28,7 @@ MANIFEST = dict(
          "constants, fixed keys, composition order and de-dup kind of both facades regenerated from the source; the hand-transcribed "
          "comprehensions by differential correspondence against the REAL GeckoAsyncFacade and GeckoFacade built on stub spas (assignment "
          "written into the block through the real accessors)."
-         ' Since session 3: rescans_are_idempotent (the facade OBJECT scanned any number of times holds the inventory of one scan; whether each list is rebuilt or grown is generated from both scan methods), checked by re-connecting the real blocking facade. A new output wiring reported on a live connection after a facade has read the outputs; the oracle decodes labels from the raw block. The first value past an output\'s label list (byte = number of labels) and the next one, on every byte-wide output, alone and beside an ordinary wiring.',
+         ' Since session 3: rescans_are_idempotent (the facade OBJECT scanned any number of times holds the inventory of one scan; whether each list is rebuilt or grown is generated from both scan methods), checked by re-connecting the real blocking facade. A new output wiring reported on a live connection after a facade has read the outputs; the oracle decodes labels from the raw block. The first value past an output\'s label list (byte = number of labels) and the next one, on every byte-wide output, alone and beside an ordinary wiring. Round 14: the inventory of spas of different pack families connected one after the other in one process (inYJ 62/59, crafted inYT 62/62, inYJ again).',
     note="Trusted: Lean kernel; harness/gen_c12.py (AST evaluation of const.py, syntactic facts); the correspondence harness. 'Wired to an "
          "output' is the label-prefix relation the library itself uses (no other definition exists in the repository). str.upper() is modelled "
          "as ASCII upper: every upper-cased key of the shipped tables is ASCII (checked by the kernel).",
@@ -464,6 +464,43 @@ def cause_of(err):
     return et + (":" + m.group(1) if m else "")
 
 
+def check_sessions(ctx):
+    """the inventory of a spa connected LATER in the same process, through the real client path: first a spa of one pack family, then
+    one of another family whose tables carry a version number the first family also has (inYJ config 62 / log 59, then inYT config
+    62 / log 62), then the first again - each facade must show what a facade built directly over that spa's own tables and block shows"""
+    import sessions
+    from common import REPO
+    from geckolib.utils.snapshot import GeckoSnapshot
+    yj = str(REPO / "tests" / "snapshots" / "inYJ-All off-2020-12-18 11_24_09.snapshot")
+    yt_base = GeckoSnapshot.parse_log_file(str(REPO / "tests" / "snapshots" / "inYT-Pump1Hi-2020-12-13 11_19_35.snapshot"))[0]
+    yt = sessions.CraftedSnapshot(yt_base, packtype="inYT", config_version=62, log_version=62)
+    plan = [("connect", yj), ("new-manager", yt), ("new-manager", yj)]
+
+    def observe(k, man, sim):
+        spa = man.facade.spa
+        got = dump_facade(man.facade, spa, True, True)
+        plat = spa.pack_class.name.lower() if hasattr(spa.pack_class, "name") else "?"
+        ref_spa = StubSpa(f"{sim.snapshot.packtype.lower()}-cfg-{sim.snapshot.config_version}", f"{sim.snapshot.packtype.lower()}-log-{sim.snapshot.log_version}")
+        ref_spa.struct.set_status_block(bytes(spa.struct.status_block))
+        ref, _, _ = build_async(ref_spa)
+        want = dump_facade(ref, ref_spa, True, True)
+        return {"got": got, "want": want, "tables": [plat, spa.config_version, spa.log_version]}
+    recs = sessions.run_sessions(plan, observe)
+    for r in recs:
+        ctx.count("evaluations")
+        ctx.hist("sessions", "connected" if r["connected"] else "not-connected")
+        inp = {"kind": "sessions", "connection": r["step"] + 1}
+        if not r["connected"] or r.get("observe_raised"):
+            ctx.violation(f"sessions:connection-{r['step'] + 1}:not-usable", inp, "the manager connects and the inventory can be read", r.get("observe_raised") or "not CONNECTED")
+            break
+        diff = {k: [r["obs"]["want"].get(k), v] for k, v in r["obs"]["got"].items() if r["obs"]["want"].get(k) != v}
+        if diff:
+            ctx.violation(f"sessions:connection-{r['step'] + 1}:inventory-differs", inp,
+                          "the facade shows what a facade built directly over this spa's own tables and block shows",
+                          {"tables": r["obs"]["tables"], "sections (own tables, connected facade)": {k: [str(x)[:160] for x in v] for k, v in list(diff.items())[:3]}})
+            break
+
+
 def platform_pairs(mods):
     plat = {}
     for m in mods:
@@ -645,6 +682,10 @@ def run(ctx):
                 shown += 1
     # ---- D10 on the real code, in subprocesses with fixed hash seeds
     check_d10(ctx)
+    try:
+        check_sessions(ctx)
+    except Exception as e:  # noqa
+        ctx.obligation_broken("harness:sessions", f"{type(e).__name__}: {e}")
     ctx.cov["distinct_nontrivial"] = len(nontrivial)
     ctx.cov["blocks"] = nblk
     ctx.cov["rule"] = ("per cfg table: zero block, all-'NA', packings of every label of every output (every device prefix), one device on several "
@@ -681,6 +722,11 @@ class _Collect:
 
 
 def replay(inp):
+    if inp.get("kind") == "sessions":
+        from common import Ctx
+        c = Ctx("C12", "quick", 0)
+        check_sessions(c)
+        return bool(c.violations), c.violations[0]["observed"] if c.violations else "every connection shows its own inventory"
     k = inp.get("kind")
     if k == "sync-order":
         res = d10_orders(inp["cfg"], inp["log"], inp["assignment"], inp.get("seeds", [1, 2, 3, 4]))
